@@ -14,13 +14,19 @@ pub enum L {
     S,
     /// empty line that carries exactly `n` spaces (the full indentation and nothing else)
     En,
+    /// `n - 1` spaces and a tab, nothing else: not an empty line (a tab is no indentation) and not
+    /// content (too little indentation) - it ends the scalar and is itself an ignorable blank line.
+    /// Only generated as the last line and after a text line.
+    Tt,
 }
 
-pub const MENU: [L; 15] = [L::T("a"), L::T("b c"), L::T("c "), L::T("d\t"), L::T("...x"), L::T("---x"), L::T(" x"), L::T("\ty"), L::E, L::Es, L::T("- z"), L::T("k: v"), L::T("# n"), L::S, L::En];
+pub const MENU: [L; 16] = [L::T("a"), L::T("b c"), L::T("c "), L::T("d\t"), L::T("...x"), L::T("---x"), L::T(" x"), L::T("\ty"), L::E, L::Es, L::T("- z"), L::T("k: v"), L::T("# n"), L::S, L::En, L::Tt];
 pub const LONG_MENU: [L; 4] = [L::T("aaaaaaaaaaaaaaa"), L::T("aaaaaaaaaaaaaaaa"), L::T("aaaaaaaaaaaaaaaaa"), L::T("aaaaaaaaaaaaaaaaaaaaaaaaaaaaaaaaaaaaaaaaaaaaaaaaaaaaaaaaaaaaaaaaaaaaaaaaaaaaaaaaaaaaaaaaaaaaaaaaaaaaaaaaaaaaaaaaaaaaaaaaaaaaaaaaaaaaaaaaaa é")];
 
 /// The text the scalar denotes. chomp: 0 strip, 1 clip, 2 keep.
 pub fn denote(lines: &[L], folded: bool, chomp: u8) -> String {
+    // a terminator line is not part of the scalar
+    let lines = if lines.last() == Some(&L::Tt) { &lines[..lines.len() - 1] } else { lines };
     let ls: Vec<Option<String>> = lines
         .iter()
         .map(|l| match l {
@@ -150,6 +156,14 @@ pub fn render(lines: &[L], c: &Cfg) -> Option<Rendered> {
     };
     let is_text = |l: &L| matches!(l, L::T(_) | L::S);
     let first_text = lines.iter().position(is_text);
+    if let Some(tp) = lines.iter().position(|l| *l == L::Tt) {
+        // only as the last line, with room for fewer spaces than the indentation, and not where it
+        // would itself be the line that fixes an auto-detected indentation
+        // (without any text line before it saphyr reports a wrongly indented line; the zone is thin and declined)
+        if tp + 1 != lines.len() || n == 0 || first_text.is_none() {
+            return None;
+        }
+    }
     if c.ind == 0 {
         // auto-detection: the first non-empty line fixes the indentation, so it must not start with
         // a space, and no earlier line may be longer than it
@@ -216,6 +230,12 @@ pub fn render(lines: &[L], c: &Cfg) -> Option<Rendered> {
                 for _ in 0..n.min(1) {
                     s.push(' ');
                 }
+            }
+            L::Tt => {
+                for _ in 0..n - 1 {
+                    s.push(' ');
+                }
+                s.push('\t');
             }
             L::En => {
                 for _ in 0..n {
